@@ -5,6 +5,7 @@ go 1.22.0
 require (
 	github.com/echovault/sugardb v0.0.0
 	github.com/gobwas/glob v0.2.3
+	github.com/hashicorp/raft v1.5.0
 )
 
 require (
@@ -20,7 +21,6 @@ require (
 	github.com/hashicorp/go-sockaddr v1.0.0 // indirect
 	github.com/hashicorp/golang-lru v0.5.0 // indirect
 	github.com/hashicorp/memberlist v0.5.0 // indirect
-	github.com/hashicorp/raft v1.5.0 // indirect
 	github.com/hashicorp/raft-boltdb v0.0.0-20230125174641-2a8082862702 // indirect
 	github.com/mattn/go-colorable v0.1.12 // indirect
 	github.com/mattn/go-isatty v0.0.14 // indirect
